@@ -438,6 +438,9 @@ def run_check(prop, spec, tier, seed):
     if need_replay:
         ensure_built(need_release=True)
     os.makedirs(os.path.join(ROOT, 'evidence', 'replays'), exist_ok=True)
+    for f in os.listdir(os.path.join(ROOT, 'evidence', 'replays')):
+        if f.startswith(prop + '-'):
+            os.remove(os.path.join(ROOT, 'evidence', 'replays', f))
     nrep = 0
     for scn, shp, what, vals in need_replay:
         v = [x for _, x in vals]
